@@ -588,6 +588,9 @@ public:
       if (head_is_entry) {
         new_pre |= entry_val;
       }
+      if (m_assumptions && !m_assumptions->empty()) {
+        new_pre = strengthen(head, new_pre);
+      }
       crab::CrabStats::stop("Fixpo.join_predecessors");
       crab::CrabStats::resume("Fixpo.check_fixpoint");
       bool fixpoint_reached = new_pre <= pre;
@@ -624,6 +627,9 @@ public:
       }
       if (head_is_entry) {
         new_pre |= entry_val;
+      }
+      if (m_assumptions && !m_assumptions->empty()) {
+        new_pre = strengthen(head, new_pre);
       }
       crab::CrabStats::stop("Fixpo.join_predecessors");
       crab::CrabStats::resume("Fixpo.check_fixpoint");
